@@ -15,7 +15,14 @@ import (
 	"golang.org/x/tools/go/ssa/ssautil"
 )
 
-const repoDir = "/repo"
+// the repository under verification; GOVC_REPO redirects a development/self-test run to a scratch
+// worktree (tools/seeds_regress.sh) — the registered checks never set it
+var repoDir = func() string {
+	if d := os.Getenv("GOVC_REPO"); d != "" {
+		return d
+	}
+	return "/repo"
+}()
 const repoMod = "github.com/bfenetworks/bfe"
 const contractFileName = "zz_verif_contracts.go"
 
